@@ -121,8 +121,10 @@ class Render:
             return "(" + s + ")" if p < prec else s
         if k == "un":
             inner = self.expr(e[2], 6)
-            if e[2][0] == "un" or inner[:1] in "-+&*^!":
-                inner = "(" + inner + ")"
+            # directly nested prefix operators are separated by a blank where the two tokens would
+            # otherwise fuse into another token (- - / + + / & & / * after / ...): `- -x`, `+ +x`, `& &x` never `--x`
+            if inner[:1] == e[1] or (e[1] == "&" and inner[:1] in "&^") or (e[1] == "-" and inner[:1] == "-"):
+                inner = " " + inner
             s = e[1] + inner
             return "(" + s + ")" if prec > 6 else s
         if k == "paren":
@@ -148,8 +150,11 @@ class Render:
         if k == "type":
             return self.typ(e[1])
         if k == "funclit":
-            # one-line body is not portable (.wz needs newlines): rendered by stmt-level callers
-            raise ValueError("funclit must be rendered through a statement")
+            sub = Render(self.lang, self.rng, self.variety, self.redundant)
+            sub.ind = self.ind
+            sub.body(e[3])
+            return (self.kw("func") + self.sig(e[1], e[2]) + self.open_() + "\n" + "".join(l + "\n" for l in sub.lines) +
+                    "\t" * self.ind + self.kw("end"))
         raise ValueError(e)
 
     def elt(self, x):
@@ -418,6 +423,8 @@ class Gen:
         self.globals = []
         self.consts = []
         self.readonly = set()
+        self.need_apply = False
+        self.need_mk = False
 
     def fresh(self, p="v"):
         self.n += 1
@@ -450,7 +457,22 @@ class Gen:
             self.feat("shift")
             return ("bin", r.choice(["<<", ">>"]), self.e_int(env, d + 1), lit(r.choice([0, 1, 3, 7])))
         if c < 0.68:
-            return ("un", "-", self.e_int(env, d + 1))
+            self.feat("unary-chain")
+            k = r.random()
+            x = self.e_int(env, d + 2)
+            if k < 0.2:
+                return ("un", "-", x)
+            if k < 0.4:
+                op = r.choice(["-", "+", "^"])
+                return ("un", op, ("un", op, x))
+            if k < 0.5:
+                return ("un", "-", ("un", "-", ("un", "-", x)))
+            if k < 0.6:
+                return ("un", r.choice(["-", "+", "^"]), ("un", r.choice(["-", "+", "^"]), x))
+            op, uop = r.choice([("-", "-"), ("+", "+"), ("&", "^"), ("-", "+"), ("*", "-"), ("|", "^"), ("&^", "-"), ("-", "^")])
+            if k < 0.8:
+                return ("bin", op, self.e_int(env, d + 2), ("un", uop, x))
+            return ("bin", op, self.e_int(env, d + 2), ("un", uop, ("un", uop, x)))
         if c < 0.72:
             return ("paren", self.e_int(env, d + 1))
         if c < 0.78 and self.funcs:
@@ -496,7 +518,8 @@ class Gen:
             self.feat("conv")
             return ("conv", t, lit(r.choice([0, 1, 7, 200, 255] if t == U8 else [0, 1, 7, 70000, 2147483647])))
         if c < 0.8:
-            return ("bin", r.choice(["+", "-", "&", "|", "^"]), self.e_small(env, t, d + 1), self.e_small(env, t, d + 1))
+            # (no `-` / `+` on u8: constant operands would overflow at compile time in most cases)
+            return ("bin", r.choice(["&", "|", "^"] if t == U8 else ["+", "-", "&", "|", "^"]), self.e_small(env, t, d + 1), self.e_small(env, t, d + 1))
         self.feat("conv")
         return ("conv", t, ("bin", "&", self.e_int(env, d + 1), lit(127)))
 
@@ -543,6 +566,13 @@ class Gen:
             return ("bin", r.choice(["==", "!="]), self.e_str(env, d + 1), self.e_str(env, d + 1))
         if c < 0.85:
             return ("bin", r.choice(["&&", "||"]), self.e_bool(env, d + 1), self.e_bool(env, d + 1))
+        k = r.random()
+        if k < 0.3:
+            self.feat("unary-chain")
+            return ("un", "!", ("un", "!", ident(r.choice(vs)) if vs else pre("true")))
+        if k < 0.5:
+            self.feat("unary-chain")
+            return ("bin", r.choice(["<", ">", "<=", "=="]), self.e_int(env, d + 1), ("un", "-", self.e_int(env, 3)))
         return ("un", "!", ("paren", self.e_bool(env, d + 1)))
 
     def e_of(self, env, t, d=0):
@@ -725,27 +755,68 @@ class Gen:
                 v, ok = self.fresh(), self.fresh("ok")
                 return [("define", [v, ok], [("idx", ident(m), strlit(r.choice(["a", "k"])))]),
                         ("if", None, ident(ok), [println(strlit("has"), ident(v))], [println(strlit("no"), ident(v))])]
-        if c < 0.88:
+        if c < 0.86:
             for n, t in env:
                 if t[0] == "named":
                     self.feat("method-call")
                     return [("expr", call(("sel", ident(n), "bump"), self.e_int(env, 1))),
                             println(call(("sel", ident(n), "sum"), lit(1)))]
-        if c < 0.91:
+        if c < 0.88:
             self.feat("block")
             return [("block", self.block(env, depth + 1, r.randrange(1, 3), in_loop, ret))]
-        if c < 0.94 and not in_loop:
+        if c < 0.90 and not in_loop:
             self.feat("defer")
             return [("defer", call(pre("println"), strlit("deferred"), self.e_int([], 2)))]
-        if c < 0.97:
-            self.feat("closure")
-            f = self.fresh("fn")
-            a = self.fresh("a")
-            return [("var", f, None, ("funclit", [(a, INT)], [INT],
-                                      [("return", [("bin", "+", ident(a), self.e_int(env, 2))])])),
-                    println(call(ident(f), self.e_int(env, 2)))]
+        if c < 0.98:
+            return self.closure_stmt(env, depth, in_loop)
         self.feat("println")
         return [println(self.e_int(env), self.e_str(env))]
+
+    def closure_stmt(self, env, depth, in_loop):
+        """a function literal in one of the expression contexts (:=, call argument, defer, immediately
+        invoked, returned by a helper), with a body made of ordinary statements: plain `=` and compound
+        assignments to captured variables, if/for/switch, nested closures"""
+        r = self.rng
+        acc = self.fresh("acc")
+        a = self.fresh("a")
+        self.readonly.add(a)
+        inner_env = env + [(acc, INT), (a, INT)]
+        body = [("assign", [ident(acc)], "=", [("bin", "+", ident(acc), ident(a))])]
+        body += self.block(inner_env, depth + 1, r.randrange(1, 3), False, None)
+        if r.random() < 0.5:
+            body.append(("assign", [ident(acc)], r.choice(["+=", "-=", "^=", "|="]), [self.e_int(inner_env, 2)]))
+        if r.random() < 0.3:
+            body.append(("if", None, ("bin", ">", ident(acc), lit(5)), [("assign", [ident(acc)], "=", [lit(1)])], None))
+        lit_int = ("funclit", [(a, INT)], [INT], body + [("return", [("bin", "+", ident(acc), ident(a))])])
+        lit_void = ("funclit", [], [], [("assign", [ident(acc)], "=", [("bin", "*", ident(acc), lit(2))])] +
+                    self.block(env + [(acc, INT)], depth + 1, 1, False, None) + [println(strlit("in closure"), ident(acc))])
+        out = [("var", acc, INT, self.e_int(env, 2))]
+        k = r.random()
+        if k < 0.25:
+            self.feat("closure")
+            f = self.fresh("fn")
+            out += [("var", f, None, lit_int), println(call(ident(f), self.e_int(env, 2)), call(ident(f), lit(1)))]
+        elif k < 0.45:
+            self.feat("closure-argument")
+            self.need_apply = True
+            out += [println(call(ident("apply"), lit_int, self.e_int(env, 2)))]
+        elif k < 0.6 and not in_loop:
+            self.feat("closure-deferred")
+            out += [("defer", call(lit_void))]
+        elif k < 0.75:
+            self.feat("closure-invoked")
+            out += [println(call(lit_int, self.e_int(env, 2)))]
+        elif k < 0.9:
+            self.feat("closure-returned")
+            self.need_mk = True
+            g = self.fresh("g")
+            out += [("var", g, None, call(ident("mk"), self.e_int(env, 2))), println(call(ident(g), lit(1)), call(ident(g), lit(2)))]
+        else:
+            self.feat("closure-void-call")
+            f = self.fresh("fn")
+            out += [("var", f, None, lit_void), ("expr", call(ident(f))), ("expr", call(ident(f)))]
+        out.append(println(ident(acc)))
+        return out
 
     # ---- program
     def program(self):
@@ -821,6 +892,16 @@ class Gen:
                            ([STR], [println(strlit("string"), ident("tv"))]),
                            ([("ptr", ("named", "S0"))], [println(strlit("S0"), ("sel", ident("tv"), "a"))])])]
         main += self.block(env, 0, 3 + 2 * self.size, False, None)
+        if self.need_apply:
+            decls.append(("func", None, "apply", [("f", ("func", [("a", INT)], [INT])), ("v", INT)], [INT],
+                          [("return", [call(ident("f"), ident("v"))])]))
+        if self.need_mk:
+            decls.append(("func", None, "mk", [("k", INT)], [("func", [("a", INT)], [INT])],
+                          [("var", "cnt", INT, ident("k")),
+                           ("return", [("funclit", [("a", INT)], [INT],
+                                        [("assign", [ident("cnt")], "=", [("bin", "+", ident("cnt"), ident("a"))]),
+                                         ("if", None, ("bin", ">", ident("cnt"), lit(100)), [("assign", [ident("cnt")], "=", [lit(0)])], None),
+                                         ("return", [ident("cnt")])])])]))
         decls.append(("func", None, "main", [], [], main))
         return decls
 
